@@ -29,6 +29,7 @@ ASSUMPTIONS = ["sorted inputs are kept <= 400 elements (the sort recurses once p
                "for a non-empty iterable is not generated",
                "the text of the progress meter is collected but not compared",
                "pmap task functions are module-level (picklable); worker crashes are not injected"]
+THOROUGH_ROUNDS = 5      # the thorough tier runs the generator over this many derived seeds
 REQUIRED = {"quick": {"C20.sort": 1800, "C20.isplit": 12000, "C20.splitarray": 1500, "C20.progress": 4500, "C20.pmap": 160},
             "thorough": {"C20.sort": 45000, "C20.isplit": 12000, "C20.splitarray": 40000, "C20.progress": 120000, "C20.pmap": 2400}}
 WATCHDOG = {"quick": 900, "thorough": 7200}
